@@ -21,9 +21,13 @@ const (
 	KStr                // String "s<id>:<pad>"; pads up to 560 chars (not inlined by atree)
 	KArr                // [Int] = [id, id+1, ...]; up to 150 elements (own slab)
 	KStruct             // C20.S(id:, pad:)
+	KUInt               // UInt; id is the value itself, never negative (may exceed 64 bits)
 )
 
-func (k kind) String() string { return [...]string{"Int", "String", "[Int]", "C20.S"}[k] }
+func (k kind) String() string { return [...]string{"Int", "String", "[Int]", "C20.S", "UInt"}[k] }
+
+// integer kinds: the id is the value
+func (k kind) integer() bool { return k == KInt || k == KUInt }
 
 // Cadence type of an element of this kind.
 func (k kind) typ() string { return k.String() }
@@ -48,7 +52,7 @@ func bi(n int64) *big.Int { return big.NewInt(n) }
 // lit renders the Cadence literal of element id.
 func lit(k kind, id *big.Int) string {
 	switch k {
-	case KInt:
+	case KInt, KUInt:
 		return id.String()
 	case KStr:
 		return `"s` + id.String() + ":" + pad(id) + `"`
@@ -249,6 +253,10 @@ func idOf(k kind, n *node) (*big.Int, bool) {
 	switch k {
 	case KInt:
 		if n.tag == 'i' {
+			return n.i, true
+		}
+	case KUInt:
+		if n.tag == 'i' && n.i.Sign() >= 0 {
 			return n.i, true
 		}
 	case KStr:
